@@ -286,7 +286,13 @@ class Skel:
                     el = el[:dd] + ["_"] * (n - len(el)) + el[dd:]
                 k = ("T", tuple(el))
             padded.append((k, o))
-        arms = padded
+        # `A | B => X` is `A => X, B => X`: one arm per variant, so that splitting / merging or-patterns changes nothing
+        arms = []
+        for k, o in padded:
+            if k and k[0] != "T" and len(k) > 1:
+                arms += [((v,), o) for v in k]
+            else:
+                arms.append((k, o))
         keys = [k for k, o in arms]
         head = arms[:-1] if (keys and (keys[-1] is None or (keys[-1][0] == "T" and all(x == "_" for x in keys[-1][1])))) else arms
         if head and all(k is not None for k, o in head) and all(self._disjoint(a[0], b[0]) for i, a in enumerate(head) for b in head[i + 1:]):
